@@ -444,6 +444,12 @@ fn base_grid() -> Vec<CaseSpec> {
         (10, 0.9),
         (100, 0.75),
         (100_000, 0.9998),
+        // inversion, flipped, with n*p > 30 but n*(1-p) small (a switch decided on the unflipped
+        // mean would send these to BTPE, whose set-up is invalid there)
+        (1000, 0.998),
+        (100, 0.97),
+        (35, 0.99),
+        (100_000, 0.99999),
         // BTPE, p <= 0.5
         (61, 0.5),
         (100, 0.31),
